@@ -17,6 +17,7 @@ func simTaskBegin(kind string, id int64)         {}
 func simTaskEnd()                                {}
 func simRecover()                                {}
 func simProbe(name string)                       {}
+func simClientBorn(id int64, remoteAddr string)  {}
 func simPersistStage(stage string, path string)  {}
 
 func netListen(network, addr string) (net.Listener, error) { return net.Listen(network, addr) }
